@@ -357,7 +357,47 @@ RawVerdict(e) ==
 KF_Expm1NegZero(e) ==
   e.op = "Expm1" /\ Has(e, "x") /\ Has(e, "r") /\
   LET x == Decode(e.x)  r == Decode(e.r) IN IsZero(x) /\ x.neg /\ IsZero(r) /\ ~r.neg
-KnownFinding(e) == IF KF_Expm1NegZero(e) THEN "KF1" ELSE ""
+\* |c*10^q - n/d*10^e| <= 10^b
+AbsErrLe(c, q, n, d, e, b) ==
+  LET lo == Min2(Min2(q, e), b)
+  IN Le(AbsDiff(MulPow10(Mul(c, d), q - lo), MulPow10(n, e - lo)), MulPow10(d, b - lo))
+
+\* KF2: Log / Log2 / Log10 of x in (1 - 1e-20, 1): the result is computed as ln(m/9.9) + ln 9.9 - ln 10 and loses
+\* its leading digits to cancellation; symptom: a non-positive finite result whose ABSOLUTE error is below 1e-47
+\* (relative errors up to 1e10 ulp).  ln(1 - delta) = -delta (1 + O(delta)).
+KF_LogBelowOne(e) ==
+  e.op \in {"Log", "Log2", "Log10"} /\ Has(e, "x") /\ Has(e, "r") /\
+  LET x == Decode(e.x)  r == Decode(e.r) IN
+  /\ x.k = "fin" /\ ~x.neg /\ x.c # << >> /\ x.q < 0 /\ x.q >= 0 - 40
+  /\ Lt(x.c, Pow10(0 - x.q))                                             \* x < 1
+  /\ LET delta == Sub(Pow10(0 - x.q), x.c) IN                             \* 1 - x = delta * 10^q
+     /\ NumDigits(delta) + x.q <= 0 - 20
+     /\ r.k = "fin" /\ (r.neg \/ IsZero(r))
+     /\ LET en == Add(MulPow10(MulSmall(delta, 2), 0 - x.q), Mul(delta, delta))      \* -ln(1-d) = d + d^2/2 + O(d^3): (2 d 10^-q + d^2) / 2 * 10^(2q)
+        IN IF e.op = "Log" THEN AbsErrLe(r.c, r.q, en, <<2>>, 2 * x.q, 0 - 47)
+           ELSE AbsErrLe(r.c, r.q, Mul(en, S), MulSmall(IF e.op = "Log2" THEN LN2 ELSE LN10, 2), 2 * x.q, 0 - 47)
+
+\* KF3: Expm1 of a negative argument below 1e-23 in magnitude goes through 1/(1+s) - 1 and loses digits or
+\* returns zero (the repository's vectors testdata/TestExpm1/edge.txt pin results such as Expm1(-4.29e-3079) = 0);
+\* symptom: a result between the argument and zero
+KF_Expm1TinyNeg(e) ==
+  e.op = "Expm1" /\ Has(e, "x") /\ Has(e, "r") /\
+  LET x == Decode(e.x)  r == Decode(e.r) IN
+  /\ x.k = "fin" /\ x.neg /\ x.c # << >> /\ NumDigits(x.c) + x.q <= 0 - 21
+  /\ r.k = "fin" /\ (IsZero(r) \/ (r.neg /\ CmpMag(r.c, r.q, x.c, x.q) <= 0))
+
+\* KF4: Log1p of arguments below about 1e-3600 in magnitude returns a signed zero or a signed infinity (pinned by
+\* testdata/TestLog1p/edge.txt, e.g. Log1p(4.29e-6167) = +Inf); symptom: exactly those values, sign of the argument
+KF_Log1pTiny(e) ==
+  e.op = "Log1p" /\ Has(e, "x") /\ Has(e, "r") /\
+  LET x == Decode(e.x)  r == Decode(e.r) IN
+  /\ x.k = "fin" /\ x.c # << >> /\ NumDigits(x.c) + x.q <= 0 - 3590
+  /\ (IsZero(r) \/ r.k = "inf") /\ r.neg = x.neg
+
+KnownFinding(e) == IF KF_Expm1NegZero(e) THEN "KF1"
+                   ELSE IF KF_LogBelowOne(e) THEN "KF2"
+                   ELSE IF KF_Expm1TinyNeg(e) THEN "KF3"
+                   ELSE IF KF_Log1pTiny(e) THEN "KF4" ELSE ""
 
 Verdict(e) == LET v == RawVerdict(e) IN
               IF v \in OkSet THEN v
